@@ -174,7 +174,7 @@ def cells(info):
 E4_COMBOS = [("JSONDict", None), ("JSONList", None), ("JSONAttrDict", None), ("BufferedJSONList", "ctx"),
              ("MemoryBufferedJSONDict", "ctx"), ("JSONAttrList", None), ("BufferedJSONDict", None),
              ("MemoryBufferedJSONList", None)]
-E4_BUDGET = {"quick": 25, "thorough": 900}
+E4_BUDGET = {"quick": 25, "thorough": 400}
 
 
 def threaded_progs(spec):
